@@ -54,6 +54,10 @@ def _jsonable(x):
         return repr(x)
 
 
+class ContractError(Exception):
+    """an exception raised by the contract/stub code itself (innermost frame outside /repo/src)"""
+
+
 def run_params(cname, params):
     """Symbolic exploration of one contract for one parameter tuple.  Returns a dict."""
     from pyvc import sym, contract
@@ -70,13 +74,16 @@ def run_params(cname, params):
             raise
         except Exception as e:      # an exception of the real code that the contract did not expect
             tb = traceback.format_exc(limit=-6)
+            inner = traceback.extract_tb(e.__traceback__)[-1].filename
+            if not inner.startswith(REPO_SRC):
+                raise ContractError("%s: %s\n%s" % (type(e).__name__, e, tb))
             ctx.fail("raises-only", info="%s: %s\n%s" % (type(e).__name__, e, tb))
 
     try:
         for pr in sym.explore(body, max_paths=c.max_paths, timeout_ms=c.timeout_ms, backend=c.backend):
             out["paths"] += 1
             out["solver_s"] += pr.solver_s
-            if not pr.aborted:
+            if not pr.aborted or pr.obligations:
                 out["covers"] += 1
             for a in pr.assumptions:
                 if a not in out["assumptions"]:
